@@ -21,6 +21,10 @@ func TestChild(t *testing.T) {
 	switch plan.Rig {
 	case "R":
 		RunRigR(t, plan)
+	case "WD":
+		RunRigWD(t, plan)
+	case "W7":
+		RunRigW7(t, plan)
 	case "P":
 		RunRigP(t, plan)
 	case "ST":
